@@ -24,6 +24,7 @@ func checkC07(p *Prog, r *Report) {
 	g := ruleC07Grammar(p, a, r)
 	ruleC07OpsCase(p, a, r, g)
 	ruleC07ShortCircuit(p, a, r)
+	ruleC07Bool(p, a, r)
 	ruleDivisionGuards(p, a, r, "R-C07-DIV", true)
 	ruleC07Sym(p, a, r)
 	ruleC07Fmt(p, a, r)
@@ -146,12 +147,41 @@ func ruleC07Grammar(p *Prog, a *Anchors, r *Report) map[string]*gramLevel {
 		assoc string   // "left" (rhs call inside a loop), "right" (self call), "none"
 	}
 	specs := []spec{
-		{"ParseExpression", mergeOps(opSet("symbol", "&&", "||"), opSet("keyword", "and", "or")), "parseRelationalExpression", []string{"ParseExpression"}, "right"},
+		// (the logical level(s) are inserted below: one level for and/or, or `or` over `and`)
 		{"parseRelationalExpression", mergeOps(opSet("symbol", "==", "<=", ">=", "!=", "<>", ">", "<"), opSet("keyword", "in")), "parseSimpleExpression", []string{"parseRelationalExpression", "parseSimpleExpression"}, "right"},
 		{"parseSimpleExpression", mergeOps(opSet("symbol", "+", "-", "!"), opSet("keyword", "not")), "parseTerm", []string{"parseTerm"}, "left"},
 		{"parseTerm", opSet("symbol", "*", "/", "%"), "parsePower", []string{"parsePower"}, "left"},
 		{"parsePower", opSet("symbol", "^"), "parseFactor", []string{"parsePower"}, "right"},
 		{"parseFactor", opSet("symbol", "(", ")"), "", []string{"ParseExpression", "parseVariableOrLiteralWithFilter"}, "none"},
+	}
+	// The logical operators: "then and/or", left-associative. Two shapes satisfy that `a and b or c` reads
+	// `(a and b) or c`: one level matching all four tokens, or an `or` level whose operands are parsed by an `and`
+	// level. What does not: a right operand parsed by a function that itself accepts `or` (self-call).
+	if top := p.Method("Parser", "ParseExpression"); top != nil {
+		gl := extractLevel(p, top)
+		orOps := mergeOps(opSet("symbol", "||"), opSet("keyword", "or"))
+		andOps := mergeOps(opSet("symbol", "&&"), opSet("keyword", "and"))
+		mid := ""
+		if sameOps(gl.ops, orOps) {
+			for c, sites := range gl.callsF {
+				f := sites[0].Common().StaticCallee()
+				if c != "ParseExpression" && f.Signature.Recv() != nil && f.Signature.Results().Len() == 2 && strings.HasPrefix(strings.ToLower(c), "parse") {
+					if mid != "" && mid != c {
+						mid = "?"
+					} else if mid == "" {
+						mid = c
+					}
+				}
+			}
+		}
+		if mid != "" && mid != "?" && mid != "parseRelationalExpression" {
+			specs = append([]spec{
+				{"ParseExpression", orOps, mid, []string{mid}, "left"},
+				{mid, andOps, "parseRelationalExpression", []string{"parseRelationalExpression"}, "left"},
+			}, specs...)
+		} else {
+			specs = append([]spec{{"ParseExpression", mergeOps(orOps, andOps), "parseRelationalExpression", []string{"parseRelationalExpression"}, "left"}}, specs...)
+		}
 	}
 	levels := map[string]*gramLevel{}
 	parseFns := map[string]bool{}
@@ -271,11 +301,12 @@ func checkLeftNesting(p *Prog, r *Report, f *ssa.Function, name string) {
 				continue
 			}
 			fld := fieldName(fa.X.Type(), fa.Field)
-			mi, isMI := st.Val.(*ssa.MakeInterface)
-			if !isMI {
-				continue
+			// the loop-carried node: a phi, possibly converted to the evaluator interface
+			prev := st.Val
+			if mi, isMI := prev.(*ssa.MakeInterface); isMI {
+				prev = mi.X
 			}
-			if _, isPhi := mi.X.(*ssa.Phi); !isPhi {
+			if _, isPhi := prev.(*ssa.Phi); !isPhi {
 				continue
 			}
 			found = true
@@ -290,6 +321,20 @@ func checkLeftNesting(p *Prog, r *Report, f *ssa.Function, name string) {
 	} else if !found {
 		r.Unk(name+":nesting", p.Pos(f.Pos()), "cannot recognise how the loop nests the previous node")
 	}
+}
+
+// allocatesNode: f allocates a struct of the named node type.
+func allocatesNode(f *ssa.Function, typ string) bool {
+	for _, b := range f.Blocks {
+		for _, in := range b.Instrs {
+			if al, ok := in.(*ssa.Alloc); ok {
+				if n := structOf(al.Type()); n != nil && n.Obj().Name() == typ {
+					return true
+				}
+			}
+		}
+	}
+	return false
 }
 
 // ---- evaluator ----------------------------------------------------------
@@ -426,15 +471,25 @@ func ruleC07OpsCase(p *Prog, a *Anchors, r *Report, levels map[string]*gramLevel
 	for _, en := range evalNodes {
 		en = operandFields(p, en)
 		f := p.Method(en.typ, "Evaluate")
-		gl := levels[en.parseFn]
-		if f == nil || gl == nil {
-			r.Unk(en.typ, "-", "anchor unresolved: (*%s).Evaluate or its parse level", en.typ)
+		// the level(s) that build this node type (the logical node is built by one level or by an or- and an and-level)
+		ops := map[opTok]bool{}
+		nLevels := 0
+		for _, lv := range levels {
+			if allocatesNode(lv.fn, en.typ) {
+				nLevels++
+				for op := range lv.ops {
+					ops[op] = true
+				}
+			}
+		}
+		if f == nil || nLevels == 0 {
+			r.Unk(en.typ, "-", "anchor unresolved: (*%s).Evaluate or the parse level that builds the node", en.typ)
 			continue
 		}
 		labels := caseLabels(p, f)
 		labelsOf[en.typ] = labels
 		want := map[string]bool{}
-		for op := range gl.ops {
+		for op := range ops {
 			switch {
 			case en.typ == "simpleExpression" && (op.Val == "!" || op.Val == "not"):
 			case op.Val == "(" || op.Val == ")":
@@ -530,6 +585,23 @@ func ruleC07OpsCase(p *Prog, a *Anchors, r *Report, levels map[string]*gramLevel
 					}
 				case *ssa.Call:
 					callee := x.Common().StaticCallee()
+					if callee != nil && p.extName(callee) == "math.Mod" {
+						// the float form of %: math.Mod(<first operand>, <second operand>) under the label %
+						ls := labelsOfBlock(b)
+						key := fmt.Sprintf("%s:%s math.Mod", en.typ, strings.Join(ls, ","))
+						o1, o2 := operandOrdinal(p, x.Common().Args[0], en, 0), operandOrdinal(p, x.Common().Args[1], en, 0)
+						switch {
+						case len(ls) != 1 || ls[0] != "%":
+							r.Bad(key, p.InstrPos(in), "case %q computes with math.Mod", strings.Join(ls, ","))
+						case o1 == 1 && o2 == 2:
+							r.OK(key, p.InstrPos(in), "math.Mod with operands in written order")
+						case o1 == 2 && o2 == 1:
+							r.Bad(key, p.InstrPos(in), "case %q computes math.Mod(<second operand>, <first operand>)", "%")
+						default:
+							r.Unk(key, p.InstrPos(in), "cannot attribute the arguments of math.Mod to the node's operands (%d,%d)", o1, o2)
+						}
+						continue
+					}
 					if callee == nil || callee.Pkg == nil || callee.Pkg.Pkg.Path() != "time" || callee.Signature.Recv() == nil {
 						continue
 					}
@@ -594,6 +666,10 @@ func ruleC07OpsCase(p *Prog, a *Anchors, r *Report, levels map[string]*gramLevel
 						continue
 					}
 					for _, in := range b.Instrs {
+						// Go has no % for floats: the float form of the label is math.Mod
+						if c, isCall := in.(*ssa.Call); isCall && l == "%" && c.Common().StaticCallee() != nil && p.extName(c.Common().StaticCallee()) == "math.Mod" {
+							hasFloat = true
+						}
 						x, ok := in.(*ssa.BinOp)
 						if !ok || !isNumeric(x.X.Type()) {
 							continue
@@ -620,7 +696,7 @@ func ruleC07OpsCase(p *Prog, a *Anchors, r *Report, levels map[string]*gramLevel
 			key := en.typ + ":" + l + " direct"
 			sort.Strings(viaHelpers)
 			switch {
-			case l == "%" && hasInt, hasFloat && hasInt:
+			case hasFloat && hasInt:
 				r.OK(key, p.InstrPos(blk.Instrs[0]), "computed with Go's %v on float and integer operands", ops)
 			default:
 				r.Bad(key, p.InstrPos(blk.Instrs[0]), "case %q is not computed with Go's %v on both float and integer operands (float: %v, int: %v; helpers called: %v): an indirect formulation (three-way compare, negated opposite) differs for NaN and mixed kinds", l, ops, hasFloat, hasInt, viaHelpers)
@@ -769,21 +845,37 @@ func ruleDivisionGuards(p *Prog, a *Anchors, r *Report, rule string, evaluatorOn
 		}
 		for _, b := range f.Blocks {
 			for _, in := range b.Instrs {
-				bo, ok := in.(*ssa.BinOp)
-				if !ok || (bo.Op != token.QUO && bo.Op != token.REM) {
+				// a division: Go's / and %, and math.Mod (the float form of %)
+				var bo struct {
+					Y  ssa.Value
+					Op string
+				}
+				var xType types.Type
+				switch d := in.(type) {
+				case *ssa.BinOp:
+					if d.Op != token.QUO && d.Op != token.REM {
+						continue
+					}
+					bo.Y, bo.Op, xType = d.Y, d.Op.String(), d.X.Type()
+				case *ssa.Call:
+					if d.Common().StaticCallee() == nil || p.extName(d.Common().StaticCallee()) != "math.Mod" {
+						continue
+					}
+					bo.Y, bo.Op, xType = d.Common().Args[1], "math.Mod", d.Common().Args[0].Type()
+				default:
 					continue
 				}
 				if _, isC := bo.Y.(*ssa.Const); isC {
 					continue
 				}
 				isInt := false
-				if bt, ok := bo.X.Type().Underlying().(*types.Basic); ok && bt.Info()&types.IsInteger != 0 {
+				if bt, ok := xType.Underlying().(*types.Basic); ok && bt.Info()&types.IsInteger != 0 {
 					isInt = true
 				}
 				if !isInt && !evaluatorOnly {
 					continue // float division does not panic
 				}
-				key := fmt.Sprintf("%s:%s %s", p.FuncName(f), bo.Op, typeName(bo.X.Type()))
+				key := fmt.Sprintf("%s:%s %s", p.FuncName(f), bo.Op, typeName(xType))
 				var zeroIf *ssa.If
 				var zeroIdx int
 				g := Guarded(in, func(c ssa.Value, pol bool) bool {
@@ -1244,4 +1336,148 @@ func allocatedHere(p *Prog, v ssa.Value, seen map[ssa.Value]bool) bool {
 		return true
 	}
 	return false
+}
+
+// ---- R-C07-BOOL -------------------------------------------------------------
+
+// isBoolValue: v is AsValue(<a Go bool>) — directly, through a phi, or as the result of a package function every
+// success return of which is one.
+func isBoolValue(p *Prog, v ssa.Value, depth int, seen map[ssa.Value]bool) bool {
+	if seen[v] {
+		return true
+	}
+	seen[v] = true
+	switch x := v.(type) {
+	case *ssa.Phi:
+		for _, e := range x.Edges {
+			if !isBoolValue(p, e, depth, seen) {
+				return false
+			}
+		}
+		return true
+	case *ssa.Call:
+		callee := x.Common().StaticCallee()
+		if callee == nil || !p.InPkg(callee) {
+			return false
+		}
+		if callee.Name() == "AsValue" && callee.Signature.Recv() == nil && len(x.Common().Args) == 1 {
+			arg := x.Common().Args[0]
+			if mi, ok := arg.(*ssa.MakeInterface); ok {
+				arg = mi.X
+			}
+			bt, ok := arg.Type().Underlying().(*types.Basic)
+			return ok && bt.Info()&types.IsBoolean != 0
+		}
+		if depth == 0 || callee.Blocks == nil {
+			return false
+		}
+		rets := returnsOf(callee)
+		for _, ret := range rets {
+			if len(ret.Results) == 0 || !isBoolValue(p, res(ret, 0), depth-1, seen) {
+				return false
+			}
+		}
+		return len(rets) > 0
+	}
+	return false
+}
+
+// ruleC07Bool: "the printed form of a result is canonical (… True/False)": what a logical operator, a comparison or
+// `in` yields is a boolean whatever kinds its operands have (a negation answered with the numbers 0/1/1.1 prints 1.1).
+func ruleC07Bool(p *Prog, a *Anchors, r *Report) {
+	r.Begin("R-C07-BOOL", "and/or, comparisons, `in` and not/! yield AsValue(<Go bool>) on every successful path, whatever the operand kinds", 4)
+	for _, typ := range []string{"Expression", "relationalExpression"} {
+		f := p.Method(typ, "Evaluate")
+		if f == nil {
+			r.Unk(typ, "-", "anchor unresolved: (*%s).Evaluate", typ)
+			continue
+		}
+		labels := caseLabels(p, f)
+		names := make([]string, 0, len(labels))
+		for l := range labels {
+			names = append(names, l)
+		}
+		sort.Strings(names)
+		for _, l := range names {
+			n, bad := 0, ""
+			reachAll := ReachableBlocks(labels[l])
+			for _, ret := range returnsOf(f) {
+				if !reachAll[ret.Block()] || len(ret.Results) != 2 || !isNilConst(res(ret, 1)) {
+					continue
+				}
+				// only returns that belong to this label alone (shared tails are judged with the label they merge from)
+				own := true
+				for l2, b2 := range labels {
+					if l2 != l && ReachableBlocks(b2)[ret.Block()] && !reachAll[b2] {
+						own = false
+					}
+				}
+				if !own {
+					continue
+				}
+				n++
+				if !isBoolValue(p, res(ret, 0), 2, map[ssa.Value]bool{}) {
+					bad = p.InstrPos(ret)
+				}
+			}
+			key := typ + ":" + l + ":bool"
+			switch {
+			case bad != "":
+				r.Bad(key, bad, "the result of %q is not AsValue(<bool>) on a successful path (%s returned): it prints as something else than True/False for some operand kinds", l, p.VN(res(returnsOf(f)[0], 0)))
+			case n == 0:
+				r.Trivial(key, p.Pos(f.Pos()), "no successful return of its own")
+			default:
+				r.OK(key, p.Pos(f.Pos()), "%d successful return(s), each AsValue(<bool>)", n)
+			}
+		}
+	}
+	// negation: the value that replaces the operand on the `negate` edge
+	f := p.Method("simpleExpression", "Evaluate")
+	if f == nil {
+		r.Unk("simpleExpression", "-", "anchor unresolved: (*simpleExpression).Evaluate")
+		return
+	}
+	n := 0
+	for _, b := range f.Blocks {
+		iff, ok := b.Instrs[len(b.Instrs)-1].(*ssa.If)
+		if !ok {
+			continue
+		}
+		c, pol := normCond(iff.Cond, true)
+		if !loadsField(c, "simpleExpression", "negate") {
+			continue
+		}
+		tb := b.Succs[0]
+		if !pol {
+			tb = b.Succs[1]
+		}
+		// values computed on the negate edge that flow on: phis fed from a block dominated by tb
+		for _, bb := range f.Blocks {
+			for _, in := range bb.Instrs {
+				ph, isPhi := in.(*ssa.Phi)
+				if !isPhi {
+					continue
+				}
+				for i, e := range ph.Edges {
+					pred := bb.Preds[i]
+					if !tb.Dominates(pred) {
+						continue
+					}
+					if _, isPtrValue := e.Type().(*types.Pointer); !isPtrValue {
+						continue
+					}
+					n++
+					key := "simpleExpression:not:bool"
+					if isBoolValue(p, e, 2, map[ssa.Value]bool{}) {
+						r.OK(key, p.InstrPos(iff), "the negated value is AsValue(<bool>)")
+					} else {
+						r.Bad(key, p.InstrPos(iff), "not/! replaces its operand by %s, which is not AsValue(<bool>) for every operand kind: {{ not 0.0 }} prints 1.100000 (Value.Negate answers numbers with numbers)", p.VN(e))
+					}
+				}
+			}
+		}
+	}
+	if n == 0 {
+		r.Unk("simpleExpression:not:bool", p.Pos(f.Pos()), "cannot find the value computed on the `negate` edge of (*simpleExpression).Evaluate")
+	}
 }
